@@ -136,6 +136,17 @@ theorem text_unsound_noToken :
   · show atomHoldsR [] _ 0 _ = true; decide
   · decide
 
+/-- (d) text that is not valid UTF-8: both tokenizers take the width of a character from its first
+byte alone, so a stray continuation byte (or a Latin-1 letter) swallows the ASCII bytes behind it
+into one token, while the row-level matcher cuts at every byte ≥ 0x80: the value `92 45` (`\x92E`)
+is stored as the single token `92 45` and match-phrase `E` does not find the block. -/
+theorem text_unsound_malformed_utf8 :
+    rowSatR [] [some [146, 69]] (mpOn 0 [69]) ∧
+    txTokensOf contentSplit [146, 69] = some [[146, 69]] ∧
+    txMayBe contentSplit [0] (mpOn 0 [69]) [[some [146, 69]]] = some (some false) := by
+  refine ⟨?_, by decide, by decide⟩
+  show atomHoldsR [] _ 0 _ = true; decide
+
 theorem text_unsound_asWritten : ¬ text_sound_full := by
   intro h
   exact h [0] _ _ _ (WFB.atom 0 _) (List.mem_singleton.mpr rfl) text_unsound_noToken.1 text_unsound_noToken.2
